@@ -82,10 +82,11 @@ def rule_r1(chk, db, sk):
 
 
 class Taint:
-    def __init__(self, db, chk, site_key):
+    def __init__(self, db, chk, site_key, allow=None):
         self.db = db
         self.chk = chk
         self.site_key = site_key
+        self.allow = allow
         self.seen = set()
         self.sinks = []
         self.steps = 0
@@ -116,6 +117,8 @@ class Taint:
             if allowed_sink(d) or flow.is_transparent(t) and not d.endswith("::to_owned") and not d.endswith("::clone") and not d.endswith("Into::into") and not d.endswith("From::from"):
                 continue
             if d.endswith("FromResidual::from_residual") or d.endswith("Try::branch"):
+                continue
+            if self.allow is not None and self.allow(body, bi, t):
                 continue
             cb = self.db.body(t["callee"].get("resolved") or d) or self.db.body(d)
             if cb is not None and cb.crate in ("s3s", "s3s_fs", "s3s_policy", "s3s_aws") and not d.startswith(SECRET):
@@ -187,6 +190,54 @@ def rule_r2(chk, db, sk, crates):
                         "an owned copy of the secret (%s: %s) is not zeroized on every path before the function returns" % (names, b.locals[members[0]][:40]))
 
 
+def rule_r5(chk, db, sk):
+    """ingress: where a SecretKey is made from text (SecretKey::new, From impls, Deserialize), that text goes nowhere else - in particular
+    not into an error value or a log line produced while loading it"""
+    CONV = ("core::convert::Into::into", "core::convert::From::from", "alloc::string::String::into_boxed_str", "alloc::borrow::ToOwned::to_owned",
+            "alloc::str::<impl str>::to_owned", "core::str::<impl str>::trim", "core::result::Result::<T, E>::map", "core::option::Option::<T>::map",
+            "core::cmp::PartialEq::eq", "core::cmp::PartialEq::ne", "core::str::<impl str>::chars", "core::str::<impl str>::bytes")
+
+    def allow(body, bi, t):
+        return callee_def(t) in CONV or _makes_secret(body, bi, sk)
+    n = 0
+    for b in sorted(db.bodies.values(), key=lambda x: x.name):
+        if b.crate != "s3s" or b.kind not in ("Fn", "AssocFn") or "::tests::" in b.name:
+            continue
+        ctor = (b.impl_self == sk and short(b.impl_trait.split("<")[0]) in ("From", "TryFrom", "FromStr", "Deserialize")) or \
+               (b.name.startswith(sk + "::") and b.raw.get("ret", "").replace("Self", sk).endswith("SecretKey") and b.argc >= 1)
+        if not ctor:
+            continue
+        starts = [i for i in range(1, b.argc + 1) if "SecretKey" not in b.locals[i] and not b.locals[i].startswith("&mut core::fmt")]
+        if short(b.impl_trait.split("<")[0]) == "Deserialize":
+            # the deserialiser itself is not text; what it yields is
+            starts = [t["dst"]["l"] for bi, t in b.calls() if not t["dst"]["proj"] and t["dst"]["l"] < len(b.locals) and
+                      any(x in b.locals[t["dst"]["l"]] for x in ("String", "Box<str>", "&str", "Cow<")) and "SecretKey" not in b.locals[t["dst"]["l"]]]
+        if not starts:
+            continue
+        n += 1
+        tn = Taint(db, chk, b.name, allow=allow)
+        tn.run(b, start_locals=starts)
+        what = sorted({("%s at %s" % (x[2], x[0].loc(x[1]))) for x in tn.sinks if x[1] is not None})
+        key = short(b.impl_trait.split("<")[0]) + "::" + short(b.name) if b.impl_trait else short(b.name)
+        if b.impl_trait and "<" in b.impl_trait:
+            key += "<" + b.impl_trait.split("<", 1)[1].rstrip(">").split("::")[-1] + ">"
+        chk.verdict(not what, "R5", key, b.loc(), "the text a SecretKey is made from also flows into %s: it can surface in an error message or log while the "
+                    "key is being loaded" % what[:3], detail={"bodies_followed": tn.steps})
+    chk.floor("R5", n, 3, "constructors that build a SecretKey from text (new, From impls, Deserialize)")
+
+
+def _makes_secret(body, bi, sk):
+    t = body.blocks[bi]["term"]
+    r = (t["callee"].get("resolved") or "") + " " + callee_def(t)
+    if "SecretKey" in r and ("From" in r or "::from" in r or "new" in r):
+        return True
+    # `result.map(SecretKey::from)` and the like: an adaptor whose function argument is a SecretKey constructor
+    for a in t["args"]:
+        if isinstance(a, dict) and a.get("c") in ("item", "val", "fn") and "SecretKey" in str(a.get("def", "")) + str(a.get("ty", "")):
+            return True
+    return False
+
+
 def rule_r3(chk, db, sk):
     """containers: every ADT with a SecretKey field; their Debug / Serialize / Display impls are derived or never expose"""
     cont = []
@@ -256,6 +307,8 @@ def run(chk, db, tier):
     chk.guard("R1", rule_r1, db, sk)
     chk.guard("R2", rule_r2, db, sk, crates)
     chk.guard("R3", rule_r3, db, sk)
+    chk.rule("R5", "ingress: the text a SecretKey is built from (From impls, Deserialize) flows only into the SecretKey")
+    chk.guard("R5", rule_r5, db, sk)
     chk.guard("R4", rule_r4, db, tier)
     chk.advisory("dto::Credentials (the STS response type) prints secret_access_key in its generated Debug although the model marks it sensitive; "
                  "it is minted by the backend for the client, not a secret held by the adapter: reported as advisory, not as a C16 violation")
